@@ -10,6 +10,8 @@
 (*   compile  whether params::get of a component compiles when instantiated         *)
 (*   equiv    a compile-time composition and the run-time composition of the same   *)
 (*            components with the same parameter values on the same system          *)
+(*   mequiv   the same for the distributed (MPI) classes and runtime::mpi wrappers,  *)
+(*            on 1, 2 and 3 ranks                                                   *)
 (*   equivp   a class of runtime::preconditioner against the C++ type it names      *)
 (*   rebuilt  a typed amg after rebuild(2A) against a typed amg freshly built from   *)
 (*            2A with the same parameters (scaling keeps the transfer operators)    *)
@@ -96,6 +98,9 @@ Clauses(r) ==
       [] r.k = "equiv"   -> << <<"runtime=compile-time", Same(r, "", "_r")>>,
                                <<"runtime-preconditioner=compile-time", Same(r, "", "_p")>>,
                                <<"runtime=compile-time-after-rebuild", SameRebuilt(r, "", "_r") /\ SameRebuilt(r, "", "_p")>>,
+                               <<"known-not-reported", r.rep = <<>> >> >>
+      [] r.k = "mequiv"  -> << <<"mpi-runtime=compile-time", Same(r, "", "_r")>>,
+                               <<"mpi-runtime-preconditioner=compile-time", Same(r, "", "_p")>>,
                                <<"known-not-reported", r.rep = <<>> >> >>
       [] r.k = "equivp"  -> << <<"preconditioner-class=type", Same(r, "_t", "_r")>>,
                                <<"runtime=compile-time-after-rebuild", SameRebuilt(r, "_t", "_r")>> >>
